@@ -475,45 +475,47 @@ def _eigh_obligations(ctx, X, ld, Qd, D, P, n, what):
             ctx.eq(QtQ[d], I[d], 'QtQ==I order %d dir %d (%s)' % (d, p, what))
 
 
-def h_eigh_split_late(ctx, D, P):
-    """2x2, A(t) = lam0 I + t lam1 I + t^2 Q2 diag(nu) Q2^T + t^3 A3 + ...: the eigenvalue is repeated
-    at orders 0 AND 1 and splits at order 2.  The inner numpy.linalg.eigh calls see lam0 I, lam1 I
-    and then a block *computed* from the input that the solver proves equal to the constructed A2."""
+def h_eigh_split_late(ctx, D, P, k=2, n=2):
+    """n x n (n = 2, 3), A(t) = lam0 I + t lam1 I + ... + t^k Qk diag(nu) Qk^T + t^(k+1) A_(k+1) + ...: ONE
+    eigenvalue of multiplicity n at the orders 0 .. k-1, splitting completely at order k.  The inner
+    numpy.linalg.eigh calls see lam_j I and then a block *computed* from the input that the solver
+    proves equal to the constructed A_k."""
     algopy = symx.load_algopy()
-    n = 2
     X = np.empty((D, P, n, n), dtype=object)
     one = 1.0 if ctx.mode == 'float' else S.const(1)
     nus = {}
     for p in range(P):
-        I2 = _diagm(ctx, [one, one])
-        for d in range(min(2, D)):
+        I2 = _diagm(ctx, [one] * n)
+        for d in range(min(k, D)):
             lam = ctx.var('lam%d_%d' % (d, p))
-            Ad = _diagm(ctx, [lam, lam])
+            Ad = _diagm(ctx, [lam] * n)
             if ctx.mode == 'sym':
-                stubs.register('eigh', Ad, (np.array([lam, lam], dtype=object), I2))
+                stubs.register('eigh', Ad, (np.array([lam] * n, dtype=object), I2))
             X[d, p] = Ad
-        if D > 2:
-            Q2 = rot2(ctx, 'q2_%d' % p)
+        if D > k:
+            Q2 = rot2(ctx, 'q2_%d' % p) if n == 2 else rot3(ctx, 'q2_%d' % p)
             nu = [ctx.var('nu%d_%d' % (p, i)) for i in range(n)]
-            ctx.assume(nu[1] - nu[0] > 1)
+            for i in range(1, n):
+                ctx.assume(nu[i] - nu[i - 1] > 1)
             nus[p] = nu
             A2 = mat(mat(Q2, _diagm(ctx, nu)), Q2.T)
             if ctx.mode == 'sym':
                 stubs.register('eigh', A2, (np.array(nu, dtype=object), Q2))
-            X[2, p] = A2
-        for d in range(3, D):
+            X[k, p] = A2
+        for d in range(k + 1, D):
             for i in range(n):
                 for j in range(n):
                     X[d, p, i, j] = X[d, p, j, i] if j < i else ctx.var('A%d_%d[%d,%d]' % (d, p, i, j))
     A = mk_utpm(ctx, algopy, X)
     l, Q = algopy.eigh(A)
     ld, Qd = plain(l.data), plain(Q.data)
-    _eigh_obligations(ctx, X, ld, Qd, D, P, n, 'eigenvalue repeated at orders 0 and 1')
+    _eigh_obligations(ctx, X, ld, Qd, D, P, n, 'eigenvalue of multiplicity %d at orders 0..%d' % (n, k - 1))
     for p in range(P):
-        for d in range(min(2, D)):
-            ctx.eq(ld[d, p, 0], ld[d, p, 1], 'lambda_%d repeated' % d)
-        if D > 2:
-            ctx.eq(ld[2, p], np.array(nus[p], dtype=object), 'second-order eigenvalues are the eigenvalues of A_2 in ascending order')
+        for d in range(min(k, D)):
+            for i in range(1, n):
+                ctx.eq(ld[d, p, 0], ld[d, p, i], 'lambda_%d repeated' % d)
+        if D > k:
+            ctx.eq(ld[k, p], np.array(nus[p], dtype=object), 'order-%d eigenvalues are the eigenvalues of A_%d in ascending order' % (k, k))
     ctx.eq(plain(A.data), X, 'input unchanged')
 
 
@@ -568,6 +570,22 @@ def h_eigh_pair3(ctx, D, P, where='low', fixed_Q0=None):
     for p in range(P):
         ctx.eq(ld[0, p, pair[0]], ld[0, p, pair[1]], 'lambda_0 of the pair repeated')
     ctx.eq(plain(A.data), X, 'input unchanged')
+
+
+def h_eigh1_out_reused(ctx, D):
+    """UTPM.eigh1(A, out=(L, Q)) with buffers that hold the result of an earlier call (a matrix
+    with another block structure): same result as with fresh buffers"""
+    from .c11 import _mixed_eigh_input
+    algopy = symx.load_algopy()
+    UTPM = algopy.UTPM
+    X = _mixed_eigh_input(ctx, D)          # direction 0: repeated eigenvalue, direction 1: distinct
+    Xs = X[:, ::-1].copy()                 # the directions swapped
+    L0, Q0, b0 = UTPM.eigh1(mk_utpm(ctx, algopy, X))
+    L, Q, b = UTPM.eigh1(mk_utpm(ctx, algopy, Xs), out=(L0, Q0))
+    Lf, Qf, bf = UTPM.eigh1(mk_utpm(ctx, algopy, Xs))
+    ctx.fact(L is L0 and Q is Q0, 'the out= buffers are returned')
+    ctx.eq(plain(L.data), plain(Lf.data), 'L with reused buffers == L with fresh buffers')
+    ctx.eq(plain(Q.data), plain(Qf.data), 'Q with reused buffers == Q with fresh buffers')
 
 
 def h_svd(ctx, D, P):
@@ -840,7 +858,15 @@ def units(tier, seed):
         add('eigh/3x3/D2,P2', 'h_eigh', n=3, D=2, P=2)
     add('eigh/2x2 repeated eigenvalue, split at order 1/D3,P1', 'h_eigh_repeated', D=3, P=1)
     add('eigh/2x2 repeated eigenvalue, split at order 1/D2,P2', 'h_eigh_repeated', D=2, P=2)
+    add('eigh1/out= buffers reused for a matrix with another block structure/D2', 'h_eigh1_out_reused', o={'validate_values': False}, D=2)
     add('eigh/2x2 eigenvalue repeated at orders 0 and 1, split at order 2/D3,P1', 'h_eigh_split_late', D=3, P=1)
+    add('eigh/2x2 eigenvalue repeated at orders 0..2, split at order 3/D4,P1', 'h_eigh_split_late', D=4, P=1, k=3)
+    add('eigh/3x3 triple eigenvalue, split at order 1/D2,P1', 'h_eigh_split_late', D=2, P=1, k=1, n=3)
+    add('eigh/3x3 triple eigenvalue at orders 0 and 1, split at order 2/D3,P1', 'h_eigh_split_late', D=3, P=1, k=2, n=3)
+    if tier != 'quick':
+        add('eigh/2x2 eigenvalue repeated at orders 0..2, split at order 3/D5,P1', 'h_eigh_split_late', D=5, P=1, k=3)
+        add('eigh/2x2 eigenvalue repeated at orders 0..3, split at order 4/D5,P1', 'h_eigh_split_late', D=5, P=1, k=4)
+        add('eigh/2x2 eigenvalue repeated at every order/D4,P2', 'h_eigh_split_late', D=4, P=2, k=4)
     add('eigh/3x3 repeated pair (lower), split at order 1/D2,P1', 'h_eigh_pair3', D=2, P=1, where='low')
     add('eigh/3x3 repeated pair (upper), split at order 1/D2,P1', 'h_eigh_pair3', D=2, P=1, where='high')
     # (order 3 with a symbolic rotation Q0 exceeds the time limit: one concrete rational rotation, everything else symbolic)
